@@ -533,6 +533,23 @@ class Unit:
                     ed.add(it['body_open'] + em.start(), it['body_open'] + em.end(), 'SnmpError', 'T1')
                 self.rule('T1', path, line_of(text, it['hdr_a']), '`%s` emitted as inherent `impl<\'a> %s<\'a> { pub fn try_from }` (Verus cannot put a contract on a foreign-trait impl)' % (it['key'], m.group(1)))
                 it['key_t1'] = "impl<'a> %s<'a>" % m.group(1)
+        # ---- T2: `impl Trait for X { fn f }` -> inherent `impl X { pub fn f }` for the trait named in the unit's [t2] table
+        t2 = self.spec.get('t2')
+        if t2:
+            for it in kept:
+                key = it['key']
+                if it['body_open'] is None or not re.search(t2['item'], key):
+                    continue
+                m = re.match(r'^impl(<[^>]*>)?\s+.*\bfor\s+(.+)$', key)
+                if not m:
+                    continue
+                ed.add(it['hdr_a'], it['body_open'], "impl%s %s " % (m.group(1) or '', m.group(2)), 'T2')
+                body = text[it['body_open']:it['b']]
+                fm = re.search(r'\bfn %s\(' % re.escape(t2['fn']), body)
+                if not fm:
+                    raise LostAnchor("T2: no fn %s in %s of %s" % (t2['fn'], key, path))
+                ed.add(it['body_open'] + fm.start(), it['body_open'] + fm.start(), 'pub ', 'T2')
+                self.rule('T2', path, line_of(text, it['hdr_a']), '`%s` emitted as inherent `impl%s %s { pub fn %s }` (body verbatim; Verus loses its iterator axioms in functions reached from trait impls)' % (key, m.group(1) or '', m.group(2), t2['fn']))
         # ---- per-function overlays
         fn_spans = []  # (a, b, qualified name)
         for it in kept:
@@ -595,6 +612,7 @@ class Unit:
                 self.rule('D1', path, line_of(text, sub['hdr_a']), 'dropped fn %s' % qual)
                 return
         forced = qname in getattr(self, 'force_external', set())
+        t2 = self.spec.get('t2')
         ov = None
         for idx, fo in enumerate(self.fn_overlays):
             if fo['file'] == path and fo['name'] == name and re.search(fo.get('item', ''), item_key):
@@ -602,6 +620,13 @@ class Unit:
                     raise LostAnchor("two overlays match %s" % qname)
                 ov = fo
                 self.used_overlays.add(idx)
+        if t2 and name == t2['fn'] and re.search(t2['item'], item_key) and sub['body_open'] is not None:
+            # T2 applies to every impl of the trait: give the inherent twin the unit's default contract
+            ov = dict(ov) if ov is not None else dict(file=path, name=name)
+            ov.setdefault('requires', list(t2.get('requires', [])))
+            if not ov.get('ensures'):
+                ov['ensures'] = [dict(e) for e in t2.get('ensures', [])]
+            ov.setdefault('safety_owner', t2.get('safety_owner'))
         if ov is None and forced:
             ov = dict(file=path, name=name, mode='external_body')
         if ov is None:
@@ -634,7 +659,39 @@ class Unit:
             where = sub['hdr_a'] + m.start()
         sig_end = where if where is not None else body_open
         res = ov.get('result', 'r')
-        if arrow is not None and (where is None or arrow < where):
+        split = ov.get('split_body')
+        if split:
+            # T2: the body of a trait-impl method moves verbatim into an inherent method `split`; the trait method
+            # delegates to it (Verus mis-handles `for .. in iter().rev()` inside trait impls)
+            m = re.match(r'^impl(<[^>]*>)?\s+.*\bfor\s+(.+)$', re.sub(r'\s+', ' ', item_key))
+            if not m or sub['body_open'] is None:
+                raise LostAnchor("split_body needs a trait impl method with a body: %s" % qname)
+            paren = text.index('(', sub['hdr_a'] + sig.index('fn ' + name))
+            paren_end = match_brace(text, paren)
+            params = text[paren + 1:paren_end - 1]
+            args = []
+            depth = 0
+            cur = ''
+            for ch in params:
+                if ch in '([<':
+                    depth += 1
+                elif ch in ')]>':
+                    depth -= 1
+                if ch == ',' and depth == 0:
+                    args.append(cur)
+                    cur = ''
+                else:
+                    cur += ch
+            if cur.strip():
+                args.append(cur)
+            names = [a.split(':')[0].strip() for a in args if 'self' not in a.split(':')[0]]
+            if arrow is not None:
+                newsig = "    pub fn %s(%s) -> (%s: %s)" % (split, params, res, text[arrow + 2:sig_end].strip())
+            else:
+                newsig = "    pub fn %s(%s)" % (split, params)
+            self._split_prefix = "{ self.%s(%s) }\n}\nimpl%s %s {\n%s" % (split, ', '.join(names), m.group(1) or '', m.group(2), newsig)
+            self.rule('T2', path, line_of(text, sub['hdr_a']), 'body of `%s` emitted as inherent method `%s`, the trait method delegates to it' % (qual, split))
+        if not split and arrow is not None and (where is None or arrow < where):
             ty_a = arrow + 2
             ty_b = sig_end
             ty = text[ty_a:ty_b]
@@ -689,6 +746,8 @@ class Unit:
         # strip whitespace before '{' is kept; insert text
         for (t, tag) in pieces:
             ed.add(ins, ins, t, tag) if False else None
+        if split:
+            ed.edits.append((ins, ins, self._split_prefix, tagbase + 'T2'))
         if pieces:
             # combine into sequential zero-width edits: Edits.render sorts by (a,b) stable → keep order
             for (t, tag) in pieces:
